@@ -114,6 +114,9 @@ def _quantile_transform(u, marg, rs):
         return np.full(len(u), 2.5)
     if marg == 'constant0':
         return np.zeros(len(u))
+    if marg == 'constant_bigint':
+        # an int64 constant that float64 cannot hold exactly (epoch nanoseconds)
+        return np.full(len(u), 1600000000123456789, dtype=np.int64)
     raise ValueError(marg)
 
 
@@ -270,6 +273,8 @@ def decode_ctor(ctor):
             out[k] = [decode_ctor({'x': c})['x'] for c in v]
         elif isinstance(v, dict) and '__nd__' in v:
             out[k] = np.array(v['__nd__'], dtype=float)
+        elif isinstance(v, dict) and '__ndint__' in v:
+            out[k] = np.array(v['__ndint__'], dtype=np.int64)
         else:
             out[k] = v
     return out
